@@ -43,11 +43,12 @@ class BaseCube(object, metaclass=abc.ABCMeta):
     def __init__(self, valid=None, names=None, distance=None, wav=None,
                  nu=None, apertures=None, val=None, unc=None):
 
+        # The names of all the models (set first: the validity flags are
+        # checked against the number of models)
+        self.names = names
+
         # Which models are valid
         self.valid = valid
-
-        # The names of all the models
-        self.names = names
 
         # The distance at which the fluxes are defined
         self.distance = distance
